@@ -52,6 +52,13 @@ pub struct ItemSpec {
     pub abort_on_panic: bool,
     /// override id used in clauses.vspec / evidence
     pub id: Option<String>,
+    /// kind = "local": the function that contains the `let <name> = <init>;` whose initializer is extracted as a const
+    #[serde(rename = "fn")]
+    pub in_fn: Option<String>,
+    /// kind = "trait_fn": bound of the `VerifSelf` type parameter that replaces `Self`
+    pub self_bound: Option<String>,
+    /// kind = "local": type of the emitted const
+    pub ty: Option<String>,
     /// rename the emitted fn (used when two impls define the same method name)
     pub rename: Option<String>,
 }
@@ -226,6 +233,81 @@ fn locate(src: &str, file: &syn::File, spec: &ItemSpec) -> Result<Found, Lost> {
                 }
             }
         }
+        "local" => {
+            // initializer of `let <name> = <init>;` inside `impl <impl>::fn <fn>` -> `pub const VERIF_LOCAL_<name>: <ty> = <init>;`
+            struct LetFinder<'a> { name: &'a str, hit: Option<(std::ops::Range<usize>, usize, usize)> }
+            impl<'ast, 'a> Visit<'ast> for LetFinder<'a> {
+                fn visit_local(&mut self, l: &'ast syn::Local) {
+                    if let (syn::Pat::Ident(pi), Some(init)) = (&l.pat, &l.init) {
+                        if pi.ident == self.name && self.hit.is_none() {
+                            let sp = init.expr.span();
+                            self.hit = Some((range(sp), sp.start().line, sp.end().line));
+                        }
+                    }
+                    visit::visit_local(self, l);
+                }
+            }
+            let impl_of = spec.impl_of.clone().unwrap_or_default();
+            let fn_name = spec.in_fn.clone().unwrap_or_default();
+            for it in items {
+                if let syn::Item::Impl(im) = it {
+                    if type_last_ident(&im.self_ty).as_deref() != Some(impl_of.as_str()) { continue; }
+                    for ii in &im.items {
+                        if let syn::ImplItem::Fn(m) = ii {
+                            if m.sig.ident == fn_name.as_str() {
+                                let mut lf = LetFinder { name: &name, hit: None };
+                                lf.visit_block(&m.block);
+                                if let Some((r, l0, l1)) = lf.hit {
+                                    let ty = spec.ty.clone().unwrap_or_else(|| "&'static str".into());
+                                    return Ok(Found {
+                                        text: format!("pub const VERIF_LOCAL_{name}: {ty} = {};", &src[r.clone()]),
+                                        line_start: l0, line_end: l1, original: src[r].to_string(),
+                                    });
+                                }
+                            }
+                        }
+                    }
+                }
+            }
+        }
+        "trait_fn" => {
+            // a default method of a trait, emitted as a free generic function over `VerifSelf: <self_bound>`
+            let tr = spec.trait_.clone().unwrap_or_default();
+            for it in items {
+                if let syn::Item::Trait(t) = it {
+                    if t.ident != tr.as_str() { continue; }
+                    for ti in &t.items {
+                        if let syn::TraitItem::Fn(m) = ti {
+                            if m.sig.ident == name.as_str() && m.default.is_some() {
+                                let msp = m.span();
+                                let mr = range(msp);
+                                // `Self` -> `VerifSelf`, and a type parameter is added to the signature
+                                struct SelfFinder { hits: Vec<std::ops::Range<usize>> }
+                                impl<'ast> Visit<'ast> for SelfFinder {
+                                    fn visit_ident(&mut self, i: &'ast proc_macro2::Ident) {
+                                        if i == "Self" { self.hits.push(range(i.span())); }
+                                    }
+                                }
+                                let mut sf = SelfFinder { hits: vec![] };
+                                sf.visit_trait_item_fn(m);
+                                let mut edits: Vec<Edit> = sf.hits.into_iter().map(|r| Edit { start: r.start, end: r.end, text: "VerifSelf".into(), rule: "N7" }).collect();
+                                let bound = spec.self_bound.clone().unwrap_or_else(|| tr.clone());
+                                let after_name = range(m.sig.ident.span()).end;
+                                edits.push(Edit { start: after_name, end: after_name, text: format!("<VerifSelf: {bound}>"), rule: "N7" });
+                                let whole = apply_edits(src, edits);
+                                // recompute the slice of the method in the edited text: edits are inside [mr.start, mr.end]
+                                let delta = whole.len() as isize - src.len() as isize;
+                                let end = (mr.end as isize + delta) as usize;
+                                return Ok(Found {
+                                    text: whole[mr.start..end].to_string(),
+                                    line_start: msp.start().line, line_end: msp.end().line, original: src[mr].to_string(),
+                                });
+                            }
+                        }
+                    }
+                }
+            }
+        }
         "method" | "impl" => {
             let impl_of = spec.impl_of.clone().unwrap_or_default();
             for it in items {
@@ -295,6 +377,7 @@ pub fn item_id(spec: &ItemSpec) -> String {
     let n = spec.name.clone().unwrap_or_default();
     match (&spec.impl_of, spec.kind.as_str()) {
         (Some(i), "method") => format!("{i}::{n}"),
+        (_, "trait_fn") => format!("{}::{n}", spec.trait_.clone().unwrap_or_default()),
         (Some(i), "impl") => format!(
             "impl {}{}",
             spec.trait_.clone().map(|t| t + " for ").unwrap_or_default(),
